@@ -113,7 +113,7 @@ static MagRef mag_set(const RefEval& R, const DenseSet& d, Q a) {
   MagRef m; if (d.nmx < 0) return m;
   AxisAllow al; ref::HarmResult o = R.sum(a, d.C, d.S, d.nmx, d.mmx, al);
   m.B.x = -a * o.gx; m.B.y = -a * o.gy; m.B.z = -a * o.gz; m.scale = a * o.gabs_n; m.allow = a * al.dG;
-  m.under = scaled_underflow(o, a / R.g.r);
+  m.under = scaled_underflow(o, a / R.g.r, &al);
   return m;
 }
 
@@ -206,7 +206,7 @@ static void sec_magnetic(Ctx& c, uint64_t idx) {
       sBt = (A.scale + Bn.scale) / dtq;
       sB = fabsq(1 - tau / dtq) * A.scale + fabsq(tau / dtq) * Bn.scale + A.scale + Cn.scale;
     } else { Bt = Bn.B; sBt = Bn.scale; sB = A.scale + fabsq(tau) * Bn.scale + Cn.scale; }
-    allow = A.allow + Bn.allow * fmaxq(1, fabsq(tau / (interp ? dtq : (Q)1))) + Cn.allow;
+    allow = (interp ? (1 + fabsq(1 - tau / dtq)) * A.allow + (1 + fabsq(tau / dtq)) * Bn.allow : A.allow + (1 + fabsq(tau)) * Bn.allow) + Cn.allow;
     if (near_knot) {   // the library may have used the other neighbouring interval: same value (continuity), other rounding
       int kk = (int)roundq(tt / dtq); MagRef P1 = mag_set(R, ds[kk - 1], mm.radius), P2 = mag_set(R, ds[kk], mm.radius), P3 = mag_set(R, ds[kk + 1], mm.radius);
       sB += 2 * (P1.scale + P2.scale) + (kk + 1 < NM ? P3.scale * 2 : 0); allow += P1.allow + P2.allow + P3.allow; }
